@@ -58,6 +58,23 @@ def handle (j : Json) : R Json := do
     let (ps, ns, ins) ← keyArgs j
     pure (Json.mkObj [("text", jstr (keyText pr ps ns ins)), ("key", jstr (keyOf sha32 pr ps ns ins)),
                       ("registry", jstr (registryRepr pr ps))])
+  | "chain_keys" =>
+    -- tasks in topological order; inputs refer to earlier tasks by index
+    let ts ← arr j "tasks"
+    let mut keys : Array Str := #[]
+    let mut texts : Array Str := #[]
+    for t in ts do
+      let ps ← (← arr t "params").toList.mapM param
+      let ns := (opt t "ns").bind (fun x => x.getStr?.toOption) |>.map chars
+      let ins ← (← arr t "inputs").toList.mapM (fun p => do
+        let a ← p.getArr?
+        if h : a.size = 2 then
+          let i ← a[1].getNat?
+          pure (chars (← a[0].getStr?), keys.getD i [])
+        else throw "input pair")
+      keys := keys.push (keyOf sha32 pr ps ns ins)
+      texts := texts.push (keyText pr ps ns ins)
+    pure (Json.mkObj [("keys", jarr jstr keys.toList), ("texts", jarr jstr texts.toList)])
   | "path" =>
     let slug := chars (← str j "slug")
     let key := chars (← str j "key")
